@@ -37,7 +37,7 @@ class CUnit(Unit):
     inline = ACCESSORS
 
 
-def mk_container(vc, I, w=None, session='none', hash_types=('sha256', 'sha1')):
+def mk_container(vc, I, w=None, session='none', hash_types=('sha256', 'sha1'), levels=('zlib+1',)):
     """A Container handle with its configuration cached (config.json is immutable after init_container)."""
     w = w or vc.world or mk_world(vc)
     d = mk_container_folders(vc)
@@ -45,7 +45,8 @@ def mk_container(vc, I, w=None, session='none', hash_types=('sha256', 'sha1')):
     T = SInt.fresh('pack_size_target')
     vc.assume(b_and(n >= 0, T > 0))
     h = hash_types[vc.choose(len(hash_types), label='hash_type')] if len(hash_types) > 1 else hash_types[0]
-    algo = ('zlib+1', 'zlib+9')[vc.choose(2, label='zlib_level')]
+    # the level only reaches zlib.compressobj(level=...), whose model does not depend on it
+    algo = levels[vc.choose(len(levels), label='zlib_level')] if len(levels) > 1 else levels[0]
     cfg = MDict([('container_version', 1), ('loose_prefix_len', n), ('pack_size_target', T), ('hash_type', h),
                  ('container_id', SStr.fresh('container_id')), ('compression_algorithm', algo)])
     c = new_obj(I, 'container:Container', _folder=d.folder, _operation_session=None, _container_session=None,
@@ -65,7 +66,9 @@ def loose_pid(c, k):
 
 
 def pack_path(c, i):
+    from pyvc.engine import cur
     d = c.f['$dirs']
+    cur().ikey(i, 'pack')          # pack-id term: instantiation point of the hypotheses quantified over pack ids
     return FS.PathVal(d.packs.base, d.packs.parts + (SStr(EM.intstr_term(i)),))
 
 
@@ -74,7 +77,9 @@ def pack_pid(c, i):
 
 
 def lock_pid(c, i):
+    from pyvc.engine import cur
     d = c.f['$dirs']
+    cur().ikey(i, 'pack')
     return FS.PathVal(d.packs.base, d.packs.parts + (SStr(EM.intstr_term(i)) + '.lock',)).pid()
 
 
